@@ -11,7 +11,7 @@ import time
 import traceback
 from typing import Any, Callable, Iterable
 
-TASK_TIMEOUT = int(os.environ.get("VERIF_TASK_TIMEOUT", "25"))
+TASK_TIMEOUT = int(os.environ.get("VERIF_TASK_TIMEOUT", "240"))
 
 
 class TaskTimeout(BaseException):
